@@ -288,3 +288,51 @@ Proof.
   - exact (build_pure_keeps_builder mstate jdict jn jitter_apply b b' e H).
   - exact (build_idempotent mstate jdict jn jitter_apply b b' e H).
 Qed.
+
+(* ------------------------------------------------------------------------------------------ *)
+(* Engine.__init__: which model state init_state is handed                                      *)
+(* ------------------------------------------------------------------------------------------ *)
+Section InitState.
+  Variable w : world.
+  Local Notation machW := (mach (w_mstate w) (w_kstate w) (w_pos w) (w_info w) (w_tinfo w) (w_quant w)).
+  Local Notation ause := (apply_use (w_mstate w) (w_kstate w) (w_pos w) (w_info w) (w_tinfo w) (w_quant w)
+                            (w_k_init w) (w_k_start w) (w_k_trans w) (w_k_end w) (w_k_tune w) (w_k_endwarmup w)
+                            (w_q_gen w) (w_sched w) (w_needs_hist w)).
+  Local Notation aevs := (apply_events (w_mstate w) (w_kstate w) (w_pos w) (w_info w) (w_tinfo w) (w_quant w)
+                            (w_k_init w) (w_k_start w) (w_k_trans w) (w_k_end w) (w_k_tune w) (w_k_endwarmup w)
+                            (w_q_gen w) (w_sched w) (w_needs_hist w)).
+
+  Lemma init_uses_fold c (f : nat -> key) : forall (l : list nat) (m : machW),
+    let m' := aevs (map (fun i => EUse (mkL c MInit i 0 0) (f i)) l) m in
+    m_ks _ _ _ _ _ _ m' = m_ks _ _ _ _ _ _ m ++ map (fun i => w_k_init w i (f i) (m_ms _ _ _ _ _ _ m)) l
+    /\ m_ms _ _ _ _ _ _ m' = m_ms _ _ _ _ _ _ m.
+  Proof.
+    induction l as [|i r IH]; intros m; cbn zeta.
+    - cbn. rewrite app_nil_r. split; reflexivity.
+    - unfold apply_events. cbn [map fold_left]. fold (aevs (map (fun i => EUse (mkL c MInit i 0 0) (f i)) r)
+        (ause (mkL c MInit i 0 0) (f i) m)).
+      destruct (IH (ause (mkL c MInit i 0 0) (f i) m)) as [I1 I2]. cbn zeta in I1, I2.
+      rewrite I1, I2. cbn [apply_use l_meth l_idx m_ks m_ms]. rewrite <- app_assoc. split; reflexivity.
+  Qed.
+
+  (* Engine.__init__: init_state of kernel i in chain c is handed chain c's own initial model state after the
+     configured jitter (and the key split (split k_c 2 1) nker i of chain c's key k_c) *)
+  Theorem W_init_state_sees_own_start root nch jit c ms :
+    let s0 := init_chain (w_mstate w) (w_kstate w) (w_pos w) (w_info w) (w_tinfo w) (w_quant w)
+                (w_jitter_apply w) root nch jit c ms in
+    let s1 := exec_op _ _ _ _ _ _ (w_extract w) (w_k_init w) (w_k_start w) (w_k_trans w) (w_k_end w) (w_k_tune w)
+                (w_k_endwarmup w) (w_q_gen w) (w_p w) (w_sched w) (w_needs_hist w) OInit s0 in
+    m_ks _ _ _ _ _ _ (mach_ _ _ _ _ _ _ s1)
+    = map (fun i => w_k_init w i (split (split (chain_key root nch c) 2 1) (nker (w_p w)) i)
+                              (W_jittered w root nch jit c ms)) (seq 0 (nker (w_p w)))
+    /\ m_ms _ _ _ _ _ _ (mach_ _ _ _ _ _ _ s1) = W_jittered w root nch jit c ms.
+  Proof.
+    cbn zeta. unfold exec_op, init_chain. cbn [cid carry mach_ op_events one_call fst snd kseq_events].
+    unfold apply_events. cbn [fold_left].
+    destruct (init_uses_fold c (fun i => split (split (chain_key root nch c) 2 1) (nker (w_p w)) i)
+                (seq 0 (nker (w_p w)))
+                (mkMach _ _ _ _ _ _ [] (jitter_chain (w_mstate w) (w_jitter_apply w) root nch jit c ms) [] [] [] []))
+      as [I1 I2]. cbn zeta in I1, I2. unfold apply_events in I1, I2.
+    unfold kseq_events. cbn [fold_left]. rewrite I1, I2. cbn [m_ks m_ms app]. split; reflexivity.
+  Qed.
+End InitState.
